@@ -237,6 +237,13 @@ func runMasks(sc MaskScenario) (*verdict, *maskResult) {
 			go func() {
 				for e := range ch {
 					p, ok := pairOf(e.Value)
+					if ok && (p.L == -1 || p.T == -1) { // the marker written last for backpressured Value subscribers
+						select {
+						case c.marker <- struct{}{}:
+						default:
+						}
+						continue
+					}
 					c.apply("0", p, !ok)
 				}
 			}()
@@ -312,6 +319,15 @@ func runMasks(sc MaskScenario) (*verdict, *maskResult) {
 	if sc.Res == "coll" {
 		coll.Update("zz", bright(-1, -1), resource.WithCreateIfAbsent())
 	}
+	// a Value whose subscribers are all backpressured gets a marker too (a lossy subscriber's single pending slot would
+	// lose the final value to it: those are awaited by polling, which needs every write to store a fresh value)
+	valueMarker := sc.Res == "value"
+	for _, s := range sc.Subs {
+		valueMarker = valueMarker && s.BP
+	}
+	if valueMarker {
+		val.Set(bright(-1, -1))
+	}
 	site := "masks-single-writer"
 	for _, s := range sc.Subs {
 		if s.Incl != "" && sc.Res != "value" {
@@ -330,12 +346,24 @@ func runMasks(sc MaskScenario) (*verdict, *maskResult) {
 			}
 		}
 		ok := false
-		if sc.Res == "coll" {
+		// (a Value subscriber whose read mask hides the only field the equivalence compares is sent nothing after its seed,
+		// the marker included: it is awaited by polling, nothing can follow the seed)
+		hidden := false
+		if sc.Res == "value" && sc.Subs[i].Mask != nil && (sc.Eq == "l" || sc.Eq == "t") {
+			field := map[string]string{"l": "level_percent", "t": "target_level_percent"}[sc.Eq]
+			hidden = true
+			for _, f := range sc.Subs[i].Mask {
+				if f == field {
+					hidden = false
+				}
+			}
+		}
+		if sc.Res == "coll" || (valueMarker && !hidden) {
 			select {
 			case <-c.marker:
 			case <-time.After(limit):
 				maskFailures++
-				return &verdict{"C03/coll/" + site + "/sentinel-not-delivered", fmt.Sprintf("subscriber %d (%+v) never received the sentinel", i, sc.Subs[i]), "sentinel", "none"}, nil
+				return &verdict{"C03/" + sc.Res + "/" + site + "/sentinel-not-delivered", fmt.Sprintf("subscriber %d (%+v) never received the sentinel", i, sc.Subs[i]), "sentinel", "none"}, nil
 			}
 			c.mu.Lock()
 			ok = relViews(sc.Eq, c.view, want)
@@ -592,9 +620,10 @@ func eqWitnesses() []MaskScenario {
 		for _, eq := range []string{"e", "l", "t"} {
 			for _, mask := range maskChoices {
 				subs := []MSub{{Mask: mask, BP: bp}, {Mask: nil, BP: bp}, {Mask: mask, BP: bp, Late: 4}}
-				out = append(out,
-					MaskScenario{Res: "coll", Init: map[string]int{"2": 4}, Ops: cops, Subs: subs, Eq: eq},
-					MaskScenario{Res: "value", Init: map[string]int{"0": 2}, Ops: vops, Subs: subs, Eq: eq})
+				out = append(out, MaskScenario{Res: "coll", Init: map[string]int{"2": 4}, Ops: cops, Subs: subs, Eq: eq})
+				if bp { // bodies recur: a lossy Value subscriber could not tell when it is drained
+					out = append(out, MaskScenario{Res: "value", Init: map[string]int{"0": 2}, Ops: vops, Subs: subs, Eq: eq})
+				}
 				for _, incl := range inclChoices[1:] {
 					out = append(out, MaskScenario{Res: "coll", Init: map[string]int{}, Ops: iops, Eq: eq,
 						Subs: []MSub{{Mask: mask, BP: bp, Incl: incl}, {Mask: mask, BP: !bp, Incl: incl, Late: 3}}})
@@ -658,6 +687,9 @@ func genMasks(rng *rand.Rand) MaskScenario {
 		}
 		if rng.Intn(3) == 0 {
 			s.Late = rng.Intn(n + 1)
+		}
+		if sc.Res == "value" && sc.Eq != "" {
+			s.BP = true // bodies recur: see eqWitnesses
 		}
 		sc.Subs = append(sc.Subs, s)
 	}
